@@ -5,5 +5,5 @@ CONSTANTS
   OffsetWest = FALSE
   ZoneName = "UTC"
   ExtraFile = ""
-INVARIANTS RoundTrip SuccLaw CivilLaw AnchorLaw
+INVARIANTS WideLaw RoundTrip SuccLaw CivilLaw AnchorLaw
 CHECK_DEADLOCK FALSE
